@@ -43,14 +43,30 @@ DrawLike(e, px) ==
   /\ BumpIf(r.out # OutOk /\ r.at > 1, 4)               \* pixels before the panicking one stay applied
   /\ d' = r.st /\ rf' = rf
 StepDraw(e) == e.ev = "draw" /\ DrawLike(e, e.px)
-StepFill(e) == e.ev = "fill" /\ DrawLike(e, FillPixels(e.area, e.c))
+\* fill_solid / clear: large areas through the set form of the machine (EGMock!FillSolidFast)
+StepFill(e) ==
+  /\ e.ev = "fill"
+  /\ IF e.area[3] * e.area[4] <= 64 THEN DrawLike(e, FillPixels(e.area, e.c))
+     ELSE LET r == FillSolidFast(d, e.area, e.c) IN
+          /\ Judge(e, IF (e.out # OutOk) = (r.out # OutOk) THEN {} ELSE IF e.out # OutOk THEN {"panic_unexpected"} ELSE {"panic_missing"},
+                   [ev |-> e.ev, area |-> e.area, out |-> e.out, predicted |-> r.out, at |-> r.at])
+          /\ DriftUnless(e.out = r.out, e, "panic_kind", [out |-> e.out, predicted |-> r.out])
+          /\ BumpIf(r.out = OutOk /\ e.out = OutOk, 1)
+          /\ BumpIf(r.out = OutTwice /\ e.out # OutOk, 3)
+          /\ d' = r.st /\ rf' = rf
+\* fill_contiguous: the row-major points of the area zipped with the colour stream (the shorter one ends it)
+FcPixels(area, cs) ==
+  [i \in 1..(IF Len(cs) <= area[3] * area[4] THEN Len(cs) ELSE area[3] * area[4]) |->
+     <<area[1] + ((i - 1) % area[3]), area[2] + ((i - 1) \div area[3]), cs[i]>>]
+StepFillC(e) == e.ev = "fillc" /\ DrawLike(e, FcPixels(e.area, e.cs))
 
-\* set_pixel inside the display (the recorder never calls it outside: not covered by the property)
+\* set_pixel: inside the display it must not panic; for a point that is not on the display the property only
+\* says that no cell is touched (the next `obs` sees a phantom cell) - that set_pixel panics there is a DRIFT fact
 StepSetPixel(e) ==
   /\ e.ev = "set_pixel"
-  /\ InDisplay(e.p)
   /\ LET r == SetPixel(d, e.p, e.c) IN
-     /\ Judge(e, IF e.out = OutOk THEN {} ELSE {"panic_unexpected"}, [ev |-> e.ev, p |-> e.p, out |-> e.out])
+     /\ Judge(e, IF ~InDisplay(e.p) \/ e.out = OutOk THEN {} ELSE {"panic_unexpected"}, [ev |-> e.ev, p |-> e.p, out |-> e.out])
+     /\ DriftUnless(InDisplay(e.p) \/ e.out # OutOk, e, "set_pixel_outside_did_not_panic", [p |-> e.p])
      /\ d' = r.st /\ rf' = rf
 
 StepFlag(e) ==
@@ -112,7 +128,7 @@ StepPattern(e) ==
 
 Next == /\ l <= NRec
         /\ LET e == Rec[l] IN
-           \/ StepCase(e) \/ StepDraw(e) \/ StepFill(e) \/ StepSetPixel(e) \/ StepFlag(e) \/ StepSnap(e)
+           \/ StepCase(e) \/ StepDraw(e) \/ StepFill(e) \/ StepFillC(e) \/ StepSetPixel(e) \/ StepFlag(e) \/ StepSnap(e)
            \/ StepSwap(e) \/ StepObs(e) \/ StepObsPanic(e) \/ StepDbgBack(e) \/ StepPattern(e)
         /\ l' = l + 1
 Spec == Init /\ [][Next]_vars
